@@ -101,67 +101,58 @@ Proof.
   intros NP. exact (NP e p E).
 Qed.
 
-(* a panic of the walk is either the extractor's or the gitignore stack slice -- the latter only with UseGitignore *)
-Lemma walk_node_panic c p nd st st' pc :
-  walk_node c p nd st = WPanic st' pc ->
-  (pc = PcExtract /\ ~ no_xpanic c) \/ (pc = PcSlice /\ c_gitignore c = true).
+(* the only panic of the walk is the extractor's *)
+Lemma walk_node_panic c p nd st st' pc : walk_node c p nd st = WPanic st' pc -> ~ no_xpanic c.
 Proof.
   intros H. pose proof (walk_node_exec c nd p st) as A. rewrite H in A.
   destruct (exec c (schedule c (s_stack st) p nd) st) as [st1|st1 a|st1 pc1] eqn:E; cbn [agrees] in A.
   - discriminate.
-  - destruct A as [[ms A]|[G [ms A]]]; [discriminate|]. inversion A; subst. right. split; [reflexivity|exact G].
-  - destruct A as [ms A]. inversion A; subst. left. eapply exec_panic. exact E.
+  - destruct A as [ms A]. discriminate.
+  - eapply exec_panic. exact E.
 Qed.
 
-Lemma handle_file_no_slice c p nd b st st' pc :
-  handle_file c p nd b st = WPanic st' pc -> (pc = PcExtract /\ ~ no_xpanic c).
-Proof. intros H. apply handle_file_panic in H as [-> [e E]]. split; [reflexivity|]. intros NP. exact (NP e p E). Qed.
+Lemma handle_file_no_slice c p nd b st st' pc : handle_file c p nd b st = WPanic st' pc -> ~ no_xpanic c.
+Proof. intros H. apply handle_file_panic in H as [_ [e E]]. intros NP. exact (NP e p E). Qed.
 
-Lemma walk_dir_unsorted_panic c t p st st' pc :
-  walk_dir_unsorted c t p st = WPanic st' pc ->
-  (pc = PcExtract /\ ~ no_xpanic c) \/ (pc = PcSlice /\ c_gitignore c = true).
+Lemma walk_dir_unsorted_panic c t p st st' pc : walk_dir_unsorted c t p st = WPanic st' pc -> ~ no_xpanic c.
 Proof.
-  unfold walk_dir_unsorted. destruct (lookup t p) as [nd|]; [|intros H; left; eapply handle_file_no_slice; exact H].
-  destruct (node_stat_fails nd); [intros H; left; eapply handle_file_no_slice; exact H|apply walk_node_panic].
+  unfold walk_dir_unsorted. destruct (lookup t p) as [nd|]; [|apply handle_file_no_slice].
+  destruct (node_stat_fails nd); [apply handle_file_no_slice|apply walk_node_panic].
 Qed.
 
 Lemma walk_individual_paths_panic c t : forall ps st st' pc,
-  walk_individual_paths c t ps st = WPanic st' pc ->
-  (pc = PcExtract /\ ~ no_xpanic c) \/ (pc = PcSlice /\ c_gitignore c = true).
+  walk_individual_paths c t ps st = WPanic st' pc -> ~ no_xpanic c.
 Proof.
   induction ps as [|p ps IH]; intros st st' pc; cbn [walk_individual_paths]; [discriminate|].
   destruct (match lookup t p with Some nd => node_stat_fails nd | None => true end).
   - destruct (handle_file c p dummy_node true st) as [st1 [| |a]|st1 pc1] eqn:E; try apply IH; [discriminate|].
-    intros H; inversion H; subst. left. eapply handle_file_no_slice. exact E.
+    intros H; inversion H; subst. eapply handle_file_no_slice. exact E.
   - destruct (lookup t p) as [[n k s d ff|n ch df]|]; [| |discriminate].
     + destruct (handle_file c p (File n k s d ff) false st) as [st1 [| |a]|st1 pc1] eqn:E; try apply IH; [discriminate|].
-      intros H; inversion H; subst. left. eapply handle_file_no_slice. exact E.
+      intros H; inversion H; subst. eapply handle_file_no_slice. exact E.
     + destruct (if c_gitignore c then match parse_parent_gitignores t p with Some ms => Some (set_stack st ms) | None => None end else Some st)
         as [st0|]; [|discriminate].
       destruct (walk_dir_unsorted c t p st0) as [st1 [| |a]|st1 pc1] eqn:E; try apply IH; [discriminate|].
       intros H; inversion H; subst. eapply walk_dir_unsorted_panic. exact E.
 Qed.
 
-Lemma run_fs_panic c t st st' pc :
-  run_fs c t st = WPanic st' pc -> (pc = PcExtract /\ ~ no_xpanic c) \/ (pc = PcSlice /\ c_gitignore c = true).
+Lemma run_fs_panic c t st st' pc : run_fs c t st = WPanic st' pc -> ~ no_xpanic c.
 Proof. unfold run_fs. destruct (c_paths c); [apply walk_dir_unsorted_panic|apply walk_individual_paths_panic]. Qed.
 
 Lemma run_roots_panic c : forall roots st inv sts st' pc,
-  run_roots c roots st inv sts = RPanic st' pc ->
-  (pc = PcExtract /\ ~ no_xpanic c) \/ (pc = PcSlice /\ c_gitignore c = true).
+  run_roots c roots st inv sts = RPanic st' pc -> ~ no_xpanic c.
 Proof.
   induction roots as [|t roots IH]; intros st inv sts st' pc; cbn [run_roots]; [discriminate|].
   destruct (run_fs c t st) as [st1 [| |a]|st1 pc1] eqn:E; try apply IH; [discriminate|].
   intros H; inversion H; subst. eapply run_fs_panic. exact E.
 Qed.
 
-(* Without UseGitignore, and with extractors that do not panic, the engine never panics: whatever the trees,
-   faults, limits, cancellation point, requested paths, number of roots. *)
-Theorem run_never_panics_without_gitignore c roots :
-  c_gitignore c = false -> no_xpanic c -> forall st pc, run c roots <> RPanic st pc.
+(* With extractors that do not panic, the engine never panics: whatever the trees, faults, limits, cancellation
+   point, requested paths, number of roots, and with or without UseGitignore. *)
+Theorem run_never_panics c roots : no_xpanic c -> forall st pc, run c roots <> RPanic st pc.
 Proof.
-  intros G NP st pc H. unfold run in H. destruct (c_exts c); [discriminate|].
-  apply run_roots_panic in H as [[_ H]|[_ H]]; [exact (H NP)|congruence].
+  intros NP st pc H. unfold run in H. destruct (c_exts c); [discriminate|].
+  apply run_roots_panic in H. exact (H NP).
 Qed.
 
 (* the engine calls Extract without recover: a panicking extractor takes the scan down *)
